@@ -80,6 +80,25 @@ func (w *World) craft(n *Node, s *Step, sealer *wallet.Wallet) (*accountant.Vert
 	if !ok {
 		return nil, fmt.Errorf("no tips")
 	}
+	if s.Via == "old-both" {
+		// both parents are the lightest live vertex that already has children (typically genesis)
+		if sn := w.snapshot(n); sn != nil {
+			var best *SVertex
+			var bh Hash
+			lv := map[Hash]*accountant.Vertex{}
+			for h, sv := range sn.Live {
+				lv[h] = &sv.V
+			}
+			for _, h := range sortedHashes(lv) {
+				if sv := sn.Live[h]; len(sv.GChild) > 0 && (best == nil || sv.V.Weight < best.V.Weight) {
+					best, bh = sv, h
+				}
+			}
+			if best != nil {
+				l, r, wt = bh, bh, best.V.Weight+1
+			}
+		}
+	}
 	if s.Via == "old-left" || s.Via == "old-right" {
 		// one parent is a vertex that already has children, the other a tip
 		if sn := w.snapshot(n); sn != nil {
